@@ -222,3 +222,103 @@ Proof.
       rewrite (count_idx_perm i _ _ HP), count_idx_map_nr, (dcount_relabel i l oldl el Hl). lia. }
     rewrite HA, HD. lia.
 Qed.
+
+(* ---------- split ---------- *)
+Lemma flat_bviews_uniq bs (G : list elem) (bk : amap pos) bls (f : elem -> bool) :
+  NoDup bls -> (forall b, In b bls -> is_bview bs G b (bget bk b)) -> uniq (flat_map (fun b => filter f (bget bk b)) bls).
+Proof.
+  intros ND H. induction bls as [|b bls IH]; cbn [flat_map]; [constructor|].
+  apply NoDup_cons_iff in ND as [Hn ND]. apply uniq_app.
+  - apply uniq_filter. apply (H b). now left.
+  - apply IH; [exact ND|]. intros b' Hb'. apply H. now right.
+  - intros p Hp Hq. apply posl_in in Hp as [x [Hx Ex]]. apply filter_In in Hx as [Hx _].
+    apply (H b (or_introl eq_refl)) in Hx as [_ Hxb].
+    apply posl_in in Hq as [y [Hy Ey]]. apply in_flat_map in Hy as [b' [Hb' Hy]]. apply filter_In in Hy as [Hy _].
+    apply (H b' (or_intror Hb')) in Hy as [_ Hyb]. apply Hn. assert (Ebb : b = b') by congruence. rewrite Ebb. exact Hb'.
+Qed.
+
+Lemma split_get (s : state) old new blocks inspl :
+  let hit := flat_map (fun b => filter (fun e => inspl (e_pos e)) (bget (blk s) b)) blocks in
+  (forall l, nget (fst (split_labels old new blocks inspl s)) l
+             = if (new =? l)%N then el_add (nget (lbl s) new) (map nr hit)
+               else if (old =? l)%N then filter (fun e => negb (mem_pos (e_pos e) (map e_pos hit))) (nget (lbl s) old)
+               else nget (lbl s) l)
+  /\ snd (split_labels old new blocks inspl s) = kinds_delta_move old new hit.
+Proof.
+  intro hit. unfold split_labels. fold hit. destruct hit as [|h hs] eqn:Eh.
+  - split; [|reflexivity]. intro l. cbn [fst map]. rewrite el_add_nil_r.
+    destruct (new =? l)%N eqn:E1; [apply N.eqb_eq in E1; now subst|].
+    destruct (old =? l)%N eqn:E2; [apply N.eqb_eq in E2; subst; symmetry; apply filter_id; reflexivity | reflexivity].
+  - split; [|reflexivity]. intro l. cbn [fst]. rewrite nget_aput. destruct (new =? l)%N; [reflexivity|].
+    rewrite nget_aput. destruct (old =? l)%N; reflexivity.
+Qed.
+
+Theorem split_views bs G s old new blocks inspl :
+  ViewsI bs G s -> guard bs G (body s) (LSplit old new blocks inspl) ->
+  exists s', step fixed bs (LSplit old new blocks inspl) s = Ok s'
+             /\ body s' = body_after bs (LSplit old new blocks inspl) (body s) /\ ViewsI bs G s'.
+Proof.
+  intros V [Ho [Hn [Hno [ND Hin]]]]. cbn [step with_labels]. eexists. split; [reflexivity|]. split; [reflexivity|].
+  destruct (split_get s old new blocks inspl) as [Hget Hsnd]. cbn zeta in Hget, Hsnd.
+  set (hit := flat_map (fun b => filter (fun e => inspl (e_pos e)) (bget (blk s) b)) blocks) in *.
+  pose proof (vi_uniq _ _ _ V) as UG.
+  assert (Hhit : forall x, In x hit <-> In x G /\ inspl (e_pos x) = true).
+  { intro x. unfold hit. rewrite in_flat_map. split.
+    - intros [b [Hb Hx]]. apply filter_In in Hx as [Hx Hi]. apply (vi_block _ _ _ V) in Hx as [Hx _]. auto.
+    - intros [Hx Hi]. exists (blockOf bs (e_pos x)). split; [apply (Hin _ Hi)|]. apply filter_In. split; [now apply (bview_in bs G s) | exact Hi]. }
+  assert (Uhit : uniq hit) by (apply (flat_bviews_uniq bs G); [exact ND | intros b _; apply (vi_block _ _ _ V)]).
+  assert (Hhb : forall e, In e hit -> body s (e_pos e) = old) by (intros e He; apply Hhit in He as [_ Hi]; now apply Hin).
+  assert (Hpos_hit : forall e, In e G -> (In (e_pos e) (map e_pos hit) <-> inspl (e_pos e) = true)).
+  { intros e He. split.
+    - intro Hi. apply in_map_iff in Hi as [h [Eh Hh]]. apply Hhit in Hh as [Hh Hhi]. now rewrite <- Eh.
+    - intro Hi. apply in_map. apply Hhit. auto. }
+  assert (Eno : (new =? old)%N = false) by now apply N.eqb_neq.
+  assert (Hfresh : forall e, In e (map nr hit) -> ~ In (e_pos e) (posl (nget (lbl s) new))).
+  { intros e He Hi. apply in_map_iff in He as [h [<- Hh]]. cbn in Hi.
+    destruct (nview_pos _ _ _ _ (vi_label _ _ _ V new Hn) Hi) as [e1 [He1 [Ep Hb1]]]. cbn beta in Hb1. rewrite Ep, (Hhb h Hh) in Hb1. congruence. }
+  apply labels_step; auto.
+  - intros l Hl. rewrite Hget. destruct (new =? l)%N eqn:E1.
+    + apply N.eqb_eq in E1. subst l. destruct (vi_label _ _ _ V new Hn) as [Ul HlV].
+      rewrite (el_add_fresh_all _ _ Hfresh). split.
+      * apply uniq_app; [exact Ul | now apply uniq_map_nr|]. intros p Hp Hq. apply posl_in in Hq as [y [Hy Ey]].
+        apply (Hfresh y Hy). now rewrite Ey.
+      * intro x. rewrite in_app_iff, HlV, in_map_iff. cbn [body_after]. split.
+        -- intros [[e [He [-> Hb]]]|[h [<- Hh]]].
+           ++ exists e. split; [exact He|]. split; [reflexivity|]. rewrite Hb, Eno. reflexivity.
+           ++ pose proof (Hhb h Hh) as Hbh. apply Hhit in Hh as [Hh Hi]. exists h. split; [exact Hh|]. split; [reflexivity|].
+              now rewrite Hbh, N.eqb_refl, Hi.
+        -- intros [e [He [-> Hb]]]. destruct ((body s (e_pos e) =? old)%N && inspl (e_pos e)) eqn:Ec.
+           ++ apply andb_true_iff in Ec as [_ Ec]. right. exists e. split; [reflexivity|]. apply Hhit. auto.
+           ++ left. eauto.
+    + destruct (old =? l)%N eqn:E2.
+      * apply N.eqb_eq in E2. subst l. destruct (vi_label _ _ _ V old Ho) as [Ul HlV]. split; [now apply uniq_filter|].
+        intro x. rewrite filter_In, negb_true_iff, mem_pos_nIn, HlV. cbn [body_after]. split.
+        -- intros [[e [He [-> Hb]]] Hni]. cbn in Hni. exists e. split; [exact He|]. split; [reflexivity|].
+           destruct (inspl (e_pos e)) eqn:Ei; [exfalso; apply Hni; now apply (Hpos_hit e He)|]. rewrite andb_false_r. exact Hb.
+        -- intros [e [He [-> Hb]]]. destruct ((body s (e_pos e) =? old)%N && inspl (e_pos e)) eqn:Ec; [congruence|]. split; [eauto|].
+           cbn. intro Hi. apply (Hpos_hit e He) in Hi. rewrite Hb, N.eqb_refl, Hi in Ec. discriminate.
+      * apply N.eqb_neq in E1, E2. destruct (vi_label _ _ _ V l Hl) as [Ul HlV]. split; [exact Ul|]. intro x. rewrite HlV.
+        cbn [body_after]. split.
+        -- intros [e [He [-> Hb]]]. exists e. split; [exact He|]. split; [reflexivity|].
+           destruct ((body s (e_pos e) =? old)%N && inspl (e_pos e)) eqn:Ec; [|exact Hb].
+           apply andb_true_iff in Ec as [Ec _]. apply N.eqb_eq in Ec. congruence.
+        -- intros [e [He [-> Hb]]]. exists e. split; [exact He|]. split; [reflexivity|].
+           destruct ((body s (e_pos e) =? old)%N && inspl (e_pos e)) eqn:Ec; [congruence | exact Hb].
+  - rewrite Hget. assert (E1 : (new =? 0)%N = false) by now apply N.eqb_neq. assert (E2 : (old =? 0)%N = false) by now apply N.eqb_neq.
+    rewrite E1, E2. apply (vi_label0 _ _ _ V).
+  - intros i l Hl. rewrite Hget, Hsnd. destruct (dcount_kinds_move i l old new hit) as [K1 K2]. rewrite K1, K2.
+    destruct (new =? l)%N eqn:E1.
+    + apply N.eqb_eq in E1. subst l. rewrite (N.eqb_sym old new), Eno. rewrite (el_add_fresh_all _ _ Hfresh), count_idx_app, count_idx_map_nr. lia.
+    + destruct (old =? l)%N eqn:E2; [|lia]. apply N.eqb_eq in E2. subst l.
+      destruct (vi_label _ _ _ V old Ho) as [Ul HlV].
+      rewrite (count_idx_partition i (fun e => negb (mem_pos (e_pos e) (map e_pos hit))) (nget (lbl s) old)).
+      assert (HP : Permutation (filter (fun e => negb (negb (mem_pos (e_pos e) (map e_pos hit)))) (nget (lbl s) old)) (map nr hit)).
+      { apply uniq_perm; [now apply uniq_filter | now apply uniq_map_nr|].
+        intro x. split.
+        - intro Hx. apply filter_In in Hx as [Hx Hi]. rewrite negb_involutive in Hi. apply mem_pos_In in Hi.
+          apply HlV in Hx as [e [He [-> Hb]]]. cbn in Hi. apply in_map_iff. exists e. split; [reflexivity|].
+          apply Hhit. split; [exact He|]. now apply (Hpos_hit e He).
+        - intro Hx. apply in_map_iff in Hx as [h [<- Hh]]. pose proof (Hhb h Hh) as Hbh. pose proof (proj1 (Hhit h) Hh) as [HhG _].
+          apply filter_In. split; [apply HlV; eauto|]. rewrite negb_involutive. apply mem_pos_In. cbn. now apply in_map. }
+      rewrite (count_idx_perm i _ _ HP), count_idx_map_nr. lia.
+Qed.
